@@ -96,6 +96,57 @@ fn has_multi_record_alts(e: &Expr) -> bool {
     found
 }
 
+fn record_orders(t: &Ty, out: &mut Vec<Vec<String>>) {
+    match t {
+        Ty::Record(fs) => {
+            out.push(fs.iter().map(|f| f.0.clone()).collect());
+            for (_, x) in fs {
+                record_orders(x, out);
+            }
+        }
+        Ty::Fun(a, r) => {
+            for x in a {
+                record_orders(x, out);
+            }
+            record_orders(r, out);
+        }
+        Ty::Tuple(ts) | Ty::Named(_, ts) => {
+            for x in ts {
+                record_orders(x, out);
+            }
+        }
+        Ty::Array(x) => record_orders(x, out),
+        _ => {}
+    }
+}
+
+/// an annotation `(e : T)` where `T` mentions a record type and `e` contains a record literal with
+/// the same field names in another order
+fn has_reordered_annotated_record(e: &Expr) -> bool {
+    let mut found = false;
+    e.visit(&mut |x| {
+        if let Expr::Ann(inner, t) = x {
+            let mut orders = vec![];
+            record_orders(t, &mut orders);
+            inner.visit(&mut |y| {
+                if let Expr::Record(fs, None) = y {
+                    let names: Vec<String> = fs.iter().map(|f| f.0.clone()).collect();
+                    let mut sorted = names.clone();
+                    sorted.sort();
+                    for o in &orders {
+                        let mut so = o.clone();
+                        so.sort();
+                        if so == sorted && *o != names {
+                            found = true;
+                        }
+                    }
+                }
+            });
+        }
+    });
+    found
+}
+
 fn src_has_multi_record_alts(src: &str) -> bool {
     // textual approximation for programs without an AST: two alternative lines with a `{`
     // before their `->` since the last `match`
@@ -222,6 +273,8 @@ fn judge(p: &Prog, bits: u32, r: &serde_json::Value) -> Option<Failure> {
                 "shape:cannot-call:imported-io-module:run_io".to_string()
             } else if multi {
                 format!("shape:{}:multi-record-alts", slug(c))
+            } else if p.ast.as_ref().map_or(false, |(a, _)| has_reordered_annotated_record(&a.expr)) {
+                format!("shape:{}:annotated-record-field-order", slug(c))
             } else {
                 format!("shape:{}:{:08x}", slug(c), fnv(p.main.as_bytes()) as u32)
             };
@@ -236,7 +289,13 @@ fn judge(p: &Prog, bits: u32, r: &serde_json::Value) -> Option<Failure> {
             } else if multi && msg.starts_with("expected ValueRef") {
                 "shape:value-of-wrong-shape:multi-record-alts".to_string()
             } else {
-                format!("ice:{}:{}", file.trim_start_matches("/repo/"), slug(&msg.chars().take(40).collect::<String>()))
+                // the leading words of the message (no addresses, names or types): a stable key
+                let head: String = msg.chars().take_while(|c| c.is_ascii_alphabetic() || *c == ' ' || *c == ',').take(40).collect();
+                let file = match file.find("/vm/src/").or_else(|| file.find("/check/src/")).or_else(|| file.find("/src/")) {
+                    Some(i) => &file[i + 1..],
+                    None => file,
+                };
+                format!("ice:{}:{}", file, slug(&head))
             };
             Some(Failure { key, what: format!("an accepted program makes the compiler / VM panic at {}: {}", at, msg), bits, observed: format!("panic at {}: {}", at, msg) })
         }
@@ -429,7 +488,7 @@ fn main() {
     let n_modules = get("modules", if thorough { 2_500 } else { 160 });
     let workers = get("workers", 8);
     let shrink_budget = get("shrink", 120);
-    let full_pct = get("full_pct", if thorough { 100 } else { 40 });
+    let full_pct = get("full_pct", if thorough { 100 } else { 30 });
     // which of the 32 settings every accepted program is run under (all of them by default)
     let all_bits: Vec<u32> = match args.extra.get("bits") {
         Some(s) => s.split(',').filter_map(|x| x.parse().ok()).collect(),
@@ -612,7 +671,8 @@ fn main() {
                     writeln!(model_in, "{}", line).unwrap();
                     writeln!(impl_out, "shape ok").unwrap();
                     writeln!(cases, "{}", json!({"kind": "shape", "program": p.to_json(), "bits": bits, "settings": bits_name(bits), "type": r["type"], "value": val,
-                        "multi_record_alts": p.ast.as_ref().map_or(false, |a| has_multi_record_alts(&a.0.expr))})).unwrap();
+                        "multi_record_alts": p.ast.as_ref().map_or(false, |a| has_multi_record_alts(&a.0.expr)),
+                        "annotated_record_order": p.ast.as_ref().map_or(false, |a| has_reordered_annotated_record(&a.0.expr))})).unwrap();
                     n_lines += 1;
                     n_shape_lines += 1;
                 }
